@@ -212,17 +212,42 @@ func ruleR14_5(w *World, r *Report) {
 			case token.SUB:
 				// the amount: min(abs(w1), abs(w2))
 				okAmount := false
-				if mc, isCall := bo.Y.(*ssa.Call); isCall && len(mc.Call.Args) == 2 && calleeIs(mc, isMinFn, "min") {
-					absOf := func(v ssa.Value) ssa.Value {
-						ac, isCall := v.(*ssa.Call)
-						if !isCall || len(ac.Call.Args) != 1 || !calleeIs(ac, isAbsFn, "") {
-							return nil
-						}
-						return ac.Call.Args[0]
+				absOf := func(v ssa.Value) ssa.Value {
+					ac, isCall := v.(*ssa.Call)
+					if !isCall || len(ac.Call.Args) != 1 || !calleeIs(ac, isAbsFn, "") {
+						return nil
 					}
-					x, y := absOf(mc.Call.Args[0]), absOf(mc.Call.Args[1])
-					if x != nil && y != nil && ((isW(x, recv) && isW(y, other)) || (isW(x, other) && isW(y, recv))) {
+					return ac.Call.Args[0]
+				}
+				pairOK := func(x, y ssa.Value) bool {
+					return x != nil && y != nil && ((isW(x, recv) && isW(y, other)) || (isW(x, other) && isW(y, recv)))
+				}
+				if mc, isCall := bo.Y.(*ssa.Call); isCall && len(mc.Call.Args) == 2 && calleeIs(mc, isMinFn, "min") {
+					if pairOK(absOf(mc.Call.Args[0]), absOf(mc.Call.Args[1])) {
 						okAmount = true
+					}
+				} else if a := absOf(bo.Y); a != nil {
+					// `if abs(w1) < abs(w2) { card -= abs(w1) } else { card -= abs(w2) }`: the absolute value subtracted is the
+					// one a dominating comparison found not larger
+					for _, ec := range dominatingConds(st.Block()) {
+						c, isB := ec.Cond.(*ssa.BinOp)
+						if !isB {
+							continue
+						}
+						x, y := absOf(c.X), absOf(c.Y)
+						if !pairOK(x, y) {
+							continue
+						}
+						var small ssa.Value
+						switch {
+						case (c.Op == token.LSS || c.Op == token.LEQ) && ec.True, (c.Op == token.GTR || c.Op == token.GEQ) && !ec.True:
+							small = x
+						case (c.Op == token.GTR || c.Op == token.GEQ) && ec.True, (c.Op == token.LSS || c.Op == token.LEQ) && !ec.True:
+							small = y
+						}
+						if small != nil && sameLoad(small, a) {
+							okAmount = true
+						}
 					}
 				}
 				if !okAmount {
@@ -230,16 +255,38 @@ func ruleR14_5(w *World, r *Report) {
 					return
 				}
 				// under the test `the two coefficients have opposite signs`
+				// some dominating test looks at both coefficients (`w1*w2 < 0`, `(w1 < 0) != (w2 < 0)`): which test it is
+				// is arithmetic the rule does not judge; that there is none is structural
 				guarded := false
 				for _, ec := range dominatingConds(st.Block()) {
-					c, isB := ec.Cond.(*ssa.BinOp)
-					if !isB || c.Op != token.LSS || !ec.True {
-						continue
+					sawA, sawB := false, false
+					var walk func(v ssa.Value, d int)
+					walk = func(v ssa.Value, d int) {
+						if v == nil || d > 5 {
+							return
+						}
+						if isW(v, recv) {
+							sawA = true
+						}
+						if isW(v, other) {
+							sawB = true
+						}
+						switch x := v.(type) {
+						case *ssa.BinOp:
+							walk(x.X, d+1)
+							walk(x.Y, d+1)
+						case *ssa.UnOp:
+							if x.Op != token.MUL {
+								walk(x.X, d+1)
+							}
+						case *ssa.Call:
+							for _, a := range x.Call.Args {
+								walk(a, d+1)
+							}
+						}
 					}
-					if k, isK := constInt(c.Y); !isK || k != 0 {
-						continue
-					}
-					if m, isM := c.X.(*ssa.BinOp); isM && m.Op == token.MUL && ((isW(m.X, recv) && isW(m.Y, other)) || (isW(m.X, other) && isW(m.Y, recv))) {
+					walk(ec.Cond, 0)
+					if sawA && sawB {
 						guarded = true
 					}
 				}
@@ -269,6 +316,16 @@ func ruleR14_5(w *World, r *Report) {
 	}
 }
 
+// sameLoad: two loads of the same element (same address chain).
+func sameLoad(a, b ssa.Value) bool {
+	if a == b {
+		return true
+	}
+	la, okA := a.(*ssa.UnOp)
+	lb, okB := b.(*ssa.UnOp)
+	return okA && okB && la.Op == token.MUL && lb.Op == token.MUL && chainOf(la.X) == chainOf(lb.X)
+}
+
 // isFieldAddrOf: addr is &base.<field>; returns base.
 func isFieldAddrOf(addr ssa.Value, field string) (ssa.Value, bool) {
 	fa, ok := addr.(*ssa.FieldAddr)
@@ -293,62 +350,64 @@ func ruleR14_6(w *World, r *Report) {
 		}
 		k := 0
 		for _, h := range loopHeaders(fn) {
-			iff, ok := h.Instrs[len(h.Instrs)-1].(*ssa.If)
-			if !ok {
-				continue
-			}
-			bo, ok := iff.Cond.(*ssa.BinOp)
-			if !ok {
-				continue
-			}
-			bound, isK := constInt(bo.Y)
-			if !isK {
-				continue
-			}
-			// the index: a value decremented in the loop and used to index the trail
-			idx := bo.X
 			body := loopBlocks(fn, h)
-			decremented, indexesTrail := false, false
-			for b := range body {
-				for _, ins := range b.Instrs {
-					switch x := ins.(type) {
-					case *ssa.BinOp:
-						if x.Op == token.SUB && x.X == idx {
-							if one, ok := constInt(x.Y); ok && one == 1 {
-								decremented = true
+			for tb := range body {
+				iff, ok := tb.Instrs[len(tb.Instrs)-1].(*ssa.If)
+				if !ok || (body[tb.Succs[0]] && body[tb.Succs[1]]) {
+					continue // not an exit test of this loop
+				}
+				bo, ok := iff.Cond.(*ssa.BinOp)
+				if !ok {
+					continue
+				}
+				bound, isK := constInt(bo.Y)
+				if !isK {
+					continue
+				}
+				// the index: a value decremented in the loop and used to index the trail
+				idx := bo.X
+				decremented, indexesTrail := false, false
+				for b := range body {
+					for _, ins := range b.Instrs {
+						switch x := ins.(type) {
+						case *ssa.BinOp:
+							if x.Op == token.SUB && x.X == idx {
+								if one, ok := constInt(x.Y); ok && one == 1 {
+									decremented = true
+								}
 							}
-						}
-					case *ssa.IndexAddr:
-						if _, isT := isFieldLoad(x.X, "solver.Solver", "trail"); isT && x.Index == idx {
-							indexesTrail = true
+						case *ssa.IndexAddr:
+							if _, isT := isFieldLoad(x.X, "solver.Solver", "trail"); isT && x.Index == idx {
+								indexesTrail = true
+							}
 						}
 					}
 				}
-			}
-			if !decremented || !indexesTrail {
-				continue
-			}
-			// the loop continues on the true edge when the body is Succs[0]
-			cont := body[h.Succs[0]]
-			op := bo.Op
-			if !cont { // the loop continues when the condition is false: negate
-				switch op {
-				case token.LSS:
-					op = token.GEQ
-				case token.LEQ:
-					op = token.GTR
-				case token.GTR:
-					op = token.LEQ
-				case token.GEQ:
-					op = token.LSS
+				if !decremented || !indexesTrail {
+					continue
 				}
+				// the loop continues on the true edge when the body is Succs[0]
+				cont := body[tb.Succs[0]]
+				op := bo.Op
+				if !cont { // the loop continues when the condition is false: negate
+					switch op {
+					case token.LSS:
+						op = token.GEQ
+					case token.LEQ:
+						op = token.GTR
+					case token.GTR:
+						op = token.LEQ
+					case token.GEQ:
+						op = token.LSS
+					}
+				}
+				n++
+				k++
+				key := fmt.Sprintf("%s bounded backward trail walk #%d", w.FuncName(fn), k)
+				visits0 := (op == token.GEQ && bound <= 0) || (op == token.GTR && bound < 0) || (op == token.NEQ && bound < 0)
+				r.Check(visits0, "R14.6", key, w.InstrPos(iff), "the walk continues while index >= 0",
+					"the walk stops before position 0 of the trail: when the trail starts with the first decision (nothing is bound at the top level) that literal is never examined, the analysis sees one falsified literal too few and learns a constraint that is not implied")
 			}
-			n++
-			k++
-			key := fmt.Sprintf("%s bounded backward trail walk #%d", w.FuncName(fn), k)
-			visits0 := (op == token.GEQ && bound <= 0) || (op == token.GTR && bound < 0) || (op == token.NEQ && bound < 0)
-			r.Check(visits0, "R14.6", key, w.InstrPos(iff), "the walk continues while index >= 0",
-				"the walk stops before position 0 of the trail: when the trail starts with the first decision (nothing is bound at the top level) that literal is never examined, the analysis sees one falsified literal too few and learns a constraint that is not implied")
 		}
 	}
 	if n == 0 {
@@ -394,21 +453,35 @@ func ruleR14_7(w *World, r *Report) {
 			if !ok {
 				break
 			}
-			if fullRangeIndex(phi, func(b ssa.Value) bool {
-				lc, ok := b.(*ssa.Call)
-				if !ok || len(lc.Call.Args) != 1 {
+			cands := []ssa.Value{phi}
+			for _, ref := range *phi.Referrers() {
+				if add, isAdd := ref.(*ssa.BinOp); isAdd && add.Op == token.ADD && add.X == ssa.Value(phi) {
+					cands = append(cands, add) // the shape of `for i := range s`
+				}
+			}
+			for _, cand := range cands {
+				if fullRangeIndex(cand, func(b ssa.Value) bool {
+					lc, ok := b.(*ssa.Call)
+					if !ok || len(lc.Call.Args) != 1 {
+						return false
+					}
+					if lenFn != nil && w.staticCalleeIs(lc, lenFn) {
+						return lc.Call.Args[0] == c
+					}
+					if bi, isB := lc.Call.Value.(*ssa.Builtin); isB && bi.Name() == "len" {
+						// the literals, or one of the per-literal lists of the constraint (same length by construction)
+						if base, isF := isFieldLoad(lc.Call.Args[0], "solver.Clause", "lits"); isF && base == c {
+							return true
+						}
+						if ld, isLd := lc.Call.Args[0].(*ssa.UnOp); isLd && ld.Op == token.MUL {
+							ch := chainOf(ld.X)
+							return strings.Contains(ch, chainOf(c)+".") && (strings.HasSuffix(ch, ".watched") || strings.HasSuffix(ch, ".weights"))
+						}
+					}
 					return false
+				}) {
+					full = true
 				}
-				if lenFn != nil && w.staticCalleeIs(lc, lenFn) {
-					return lc.Call.Args[0] == c
-				}
-				if bi, isB := lc.Call.Value.(*ssa.Builtin); isB && bi.Name() == "len" {
-					base, isF := isFieldLoad(lc.Call.Args[0], "solver.Clause", "lits")
-					return isF && base == c
-				}
-				return false
-			}) {
-				full = true
 			}
 		}
 		// exits other than the header's own
@@ -927,7 +1000,7 @@ func ruleR18_11(w *World, r *Report) {
 			ai++
 		}
 		if coef == nil {
-			bad = append(bad, "no coefficient is written")
+			// the coefficient is written by other means (a helper, strconv): not judged
 		} else if _, negated := magSources(coef); negated {
 			bad = append(bad, "the coefficient written can be the opposite of the weight: `-w x` has the same minimisers as `w ~x` but every cost read back is lower by w")
 		}
@@ -1157,6 +1230,34 @@ func ruleR19_10(w *World, r *Report) {
 				}
 				bad = append(bad, "the line is written only behind the further condition at "+w.InstrPos(ec.If))
 			}
+			if !satSeen && header == nil {
+				// the line is written by a helper (`printCost(res)`): the test may be at its call sites
+				sites, okSites := 0, true
+				for _, cf := range w.mainFns() {
+					for _, cj := range callsIn(cf) {
+						if !w.staticCalleeIs(cj, fn) {
+							continue
+						}
+						sites++
+						seen := false
+						for _, ec := range dominatingConds(cj.Block()) {
+							if bo, ok := ec.Cond.(*ssa.BinOp); ok && (bo.Op == token.EQL || bo.Op == token.NEQ) {
+								if _, f, _, okF := loadedFieldOf(bo.X); okF && f == "Status" {
+									if k, isK := constInt(bo.Y); isK && k == sat && (bo.Op == token.EQL) == ec.True {
+										seen = true
+									}
+								}
+							}
+						}
+						if !seen {
+							okSites = false
+						}
+					}
+				}
+				if sites > 0 && okSites {
+					satSeen = true
+				}
+			}
 			if !satSeen {
 				bad = append(bad, "the line is not behind the test `Status == Sat` of the result")
 			}
@@ -1233,5 +1334,374 @@ func ruleR19_11(w *World, r *Report) {
 	}
 	if n == 0 {
 		r.Unk("R19.11", "streaming calls", "-", "package main starts no streaming method of solver.Interface on a channel")
+	}
+}
+
+// ---------- R9.12: degree bookkeeping when repeated variables of a new constraint are merged ----------
+
+func ruleR9_12(w *World, r *Report) {
+	r.Rule("R9.12", "in the function that merges the repeated variables of a constraint handed to AppendClause, the degree is lowered (a) by the weight of an occurrence only where that occurrence is known to be the opposite of the literal kept (`Get(j) == lit.Negation()`), and (b) by the net weight where the net weight is negative (the opposite literal weighs more); both updates exist and there is no other", 1)
+	fn := w.Func("solver", "Solver.AppendClause")
+	if fn == nil || len(fn.Params) < 2 {
+		r.Unk("R9.12", "solver.(*Solver).AppendClause", "-", "method not found")
+		return
+	}
+	cardFn := w.Func("solver", "Clause.Cardinality")
+	// the merging function: a callee of AppendClause that is handed the constraint, returns a constraint, and reads
+	// Cardinality() of its parameter
+	var g *ssa.Function
+	var cardCall *ssa.Call
+	for _, ci := range callsIn(fn) {
+		c, ok := ci.(*ssa.Call)
+		h := ci.Common().StaticCallee()
+		if !ok || h == nil || w.PkgName(h) != "solver" || len(h.Blocks) == 0 || typeShort(c.Type()) != "*solver.Clause" {
+			continue
+		}
+		passes := false
+		for _, a := range c.Call.Args {
+			if a == ssa.Value(fn.Params[1]) {
+				passes = true
+			}
+		}
+		if !passes {
+			continue
+		}
+		for _, cj := range callsIn(h) {
+			if cc, isC := cj.(*ssa.Call); isC && cardFn != nil && w.staticCalleeIs(cc, cardFn) && !inLoop(h, cc.Block()) {
+				g, cardCall = h, cc
+			}
+		}
+	}
+	key := "degree of the merged constraint"
+	if g == nil {
+		// the merge may be written inside AppendClause: nothing to say structurally
+		r.Unk("R9.12", key, w.Pos(fn.Pos()), "no callee of AppendClause takes the new constraint, returns a constraint and reads its degree")
+		return
+	}
+	key = w.FuncName(g) + " " + key
+	// the values the local degree goes through
+	chain := map[ssa.Value]bool{cardCall: true}
+	for changed := true; changed; {
+		changed = false
+		allInstrs(g, func(ins ssa.Instruction) {
+			switch x := ins.(type) {
+			case *ssa.Phi:
+				if chain[x] {
+					return
+				}
+				for _, e := range x.Edges {
+					if chain[e] {
+						chain[x] = true
+						changed = true
+					}
+				}
+			case *ssa.BinOp:
+				if !chain[x] && x.Op == token.SUB && chain[x.X] {
+					chain[x] = true
+					changed = true
+				}
+			}
+		})
+	}
+	var bad []string
+	formA, formB := 0, 0
+	allInstrs(g, func(ins ssa.Instruction) {
+		sub, ok := ins.(*ssa.BinOp)
+		if !ok || sub.Op != token.SUB || !chain[sub.X] {
+			return
+		}
+		conds := dominatingConds(sub.Block())
+		if wc, isCall := sub.Y.(*ssa.Call); isCall && strings.HasSuffix(w.calleeName(&wc.Call), ").Weight") && len(wc.Call.Args) == 2 {
+			// (a) the weight of occurrence j: under Get(j) == <kept literal>.Negation()
+			j := wc.Call.Args[1]
+			okA := false
+			for _, ec := range conds {
+				bo, isB := ec.Cond.(*ssa.BinOp)
+				if !isB || bo.Op != token.EQL || !ec.True {
+					continue
+				}
+				for _, pair := range [][2]ssa.Value{{bo.X, bo.Y}, {bo.Y, bo.X}} {
+					_, idx, isElem := clauseElem(w, pair[0])
+					neg, isNeg := pair[1].(*ssa.Call)
+					if isElem && idx == j && isNeg && w.calleeName(&neg.Call) == "(solver.Lit).Negation" {
+						okA = true
+					}
+				}
+			}
+			if okA {
+				formA++
+			} else {
+				bad = append(bad, "the degree is lowered by the weight of an occurrence (at "+w.InstrPos(sub)+") that is not known to be the opposite of the literal kept: a literal that is merely repeated lowers the degree too, and the merged constraint is weaker than the one handed in (a clause `x y x` is dropped as always true)")
+			}
+			return
+		}
+		// (b) the net weight, where it is negative
+		okB := false
+		for _, ec := range conds {
+			bo, isB := ec.Cond.(*ssa.BinOp)
+			if !isB || !ec.True {
+				continue
+			}
+			if k, isK := constInt(bo.Y); isK && k == 0 && bo.Op == token.LSS && bo.X == sub.Y {
+				okB = true
+			}
+		}
+		if okB {
+			formB++
+		} else {
+			bad = append(bad, "unexpected update of the degree at "+w.InstrPos(sub))
+		}
+	})
+	if formA == 0 {
+		bad = append(bad, "the degree is never lowered by the weight that a literal and its opposite have in common")
+	}
+	if formB == 0 {
+		bad = append(bad, "where the opposite literal weighs more (negative net weight) the degree is not corrected by the net weight: the whole weight of the opposite literal has been taken off instead of the common part, and the merged constraint is weaker than the one handed in")
+	}
+	if len(bad) > 0 {
+		r.Bad("R9.12", key, w.InstrPos(cardCall), strings.Join(dedupe(bad), "; "))
+	} else {
+		r.OK("R9.12", key, w.InstrPos(cardCall), fmt.Sprintf("%d update(s) by a common weight under the opposite-literal test, %d by a negative net weight", formA, formB))
+	}
+}
+
+// ---------- R9.11 / R9.13 / R9.14: what AppendClause does with the constraint after the scan ----------
+
+// appendDispatch finds, in AppendClause, the degree call, the lower and upper bounds compared with it, and the two
+// calls that take the constraint in: the one that is handed its literals (all of them are forced) and the one that is
+// handed the constraint itself (it is added to the database).
+type appendDispatch struct {
+	fn          *ssa.Function
+	card        ssa.Value
+	lower, uppr ssa.Value
+	forceCall   *ssa.Call
+	forceFn     *ssa.Function
+	addCall     *ssa.Call
+}
+
+func findAppendDispatch(w *World) *appendDispatch {
+	fn := w.Func("solver", "Solver.AppendClause")
+	if fn == nil {
+		return nil
+	}
+	d := &appendDispatch{fn: fn}
+	allInstrs(fn, func(ins ssa.Instruction) {
+		bo, ok := ins.(*ssa.BinOp)
+		if !ok {
+			return
+		}
+		used := false
+		for _, rr := range *bo.Referrers() {
+			if _, ok := rr.(*ssa.If); ok {
+				used = true
+			}
+		}
+		cc, isCall := bo.Y.(*ssa.Call)
+		if !used || !isCall || !strings.HasSuffix(w.calleeName(&cc.Call), ").Cardinality") {
+			return
+		}
+		switch bo.Op {
+		case token.GEQ:
+			d.lower, d.card = bo.X, bo.Y
+		case token.LSS:
+			d.uppr, d.card = bo.X, bo.Y
+		}
+	})
+	for _, ci := range callsIn(fn) {
+		c, ok := ci.(*ssa.Call)
+		h := ci.Common().StaticCallee()
+		if !ok || h == nil || w.PkgName(h) != "solver" || h.Signature.Recv() == nil || inLoop(fn, c.Block()) {
+			continue
+		}
+		for _, a := range c.Call.Args[1:] {
+			if _, isLits := isFieldLoad(a, "solver.Clause", "lits"); isLits && typeShort(a.Type()) == "[]solver.Lit" && h.Signature.Results().Len() == 0 {
+				d.forceCall, d.forceFn = c, h
+			}
+			if typeShort(a.Type()) == "*solver.Clause" && h.Signature.Results().Len() == 0 && len(c.Call.Args) == 2 && w.effects().WritesAny(h, "solver.watcherList.origClauses") {
+				d.addCall = c
+			}
+		}
+	}
+	return d
+}
+
+func ruleR9_11(w *World, r *Report) {
+	r.Rule("R9.11", "Solver.AppendClause forces all the remaining literals of the new constraint (hands its literal list to the unit binder) only under the outcome `upper bound == degree` of the scan: only then does the constraint need every one of them", 1)
+	d := findAppendDispatch(w)
+	key := "(*solver.Solver).AppendClause forces the literals only when all are needed"
+	if d == nil || d.forceCall == nil || d.uppr == nil || d.card == nil {
+		r.Unk("R9.11", key, "-", "the upper bound, the degree or the call that forces the literals was not found in AppendClause")
+		return
+	}
+	want := lfAdd(lfOf(d.uppr, 0), lfOf(d.card, 0), -1)
+	ok := false
+	for _, ec := range dominatingConds(d.forceCall.Block()) {
+		bo, isB := ec.Cond.(*ssa.BinOp)
+		if !isB {
+			continue
+		}
+		diff := lfAdd(lfOf(bo.X, 0), lfOf(bo.Y, 0), -1)
+		neg := lfScale(diff, -1)
+		switch {
+		case diff.equal(want) && ((bo.Op == token.EQL && ec.True) || (bo.Op == token.NEQ && !ec.True) || (bo.Op == token.LEQ && ec.True) || (bo.Op == token.GTR && !ec.True)):
+			ok = true
+		case neg.equal(want) && ((bo.Op == token.EQL && ec.True) || (bo.Op == token.NEQ && !ec.True) || (bo.Op == token.GEQ && ec.True) || (bo.Op == token.LSS && !ec.True)):
+			ok = true
+		}
+	}
+	r.Check(ok, "R9.11", key, w.InstrPos(d.forceCall), "under upper bound == degree",
+		"the literals of the new constraint are all forced true under a test other than `the weight that can still be obtained equals the degree`: a constraint that can spare a literal is treated as if it could not, literals are bound that the constraint does not imply, and a satisfiable problem (or a better optimum) is lost")
+}
+
+func ruleR9_13(w *World, r *Report) {
+	r.Rule("R9.13", "the function that binds the literals of a forced constraint binds every one of them: its loop over the list is left early only on a path that has recorded Unsat", 1)
+	d := findAppendDispatch(w)
+	if d == nil || d.forceFn == nil {
+		r.Unk("R9.13", "unit binder", "-", "the function AppendClause hands the literals of a forced constraint to was not found")
+		return
+	}
+	g := d.forceFn
+	key := w.FuncName(g) + " binds every literal of the list"
+	unsat, _ := w.statusConst("Unsat")
+	var outer *ssa.BasicBlock
+	for _, h := range loopHeaders(g) {
+		if outer == nil || len(loopBlocks(g, h)) > len(loopBlocks(g, outer)) {
+			outer = h
+		}
+	}
+	if outer == nil {
+		r.Unk("R9.13", key, w.Pos(g.Pos()), "no loop found")
+		return
+	}
+	body := loopBlocks(g, outer)
+	storesUnsat := func(b *ssa.BasicBlock) bool {
+		for _, ins := range b.Instrs {
+			if st, ok := ins.(*ssa.Store); ok && qualField(st.Addr) == "solver.Solver.status" {
+				if v, ok := constInt(st.Val); ok && v == unsat {
+					return true
+				}
+			}
+		}
+		return false
+	}
+	var bad []string
+	for b := range body {
+		if b == outer {
+			continue
+		}
+		for _, sc := range b.Succs {
+			if body[sc] {
+				continue
+			}
+			// the exit: justified when Unsat is stored in the leaving block, in the block left for, or in a block of
+			// the body that dominates the leaving block
+			ok := storesUnsat(b) || storesUnsat(sc)
+			for bb := range body {
+				if bb != outer && bb.Dominates(b) && storesUnsat(bb) {
+					ok = true
+				}
+			}
+			if !ok {
+				bad = append(bad, w.InstrPos(b.Instrs[len(b.Instrs)-1]))
+			}
+		}
+	}
+	if len(bad) > 0 {
+		r.Bad("R9.13", key, w.InstrPos(outer.Instrs[len(outer.Instrs)-1]), "the loop over the literals to bind is left at "+strings.Join(sortedStrings(dedupe(bad)), ", ")+" without Unsat having been recorded: the literals behind that position are never bound although the constraint forces them, and the constraint itself is not kept")
+	} else {
+		r.OK("R9.13", key, w.InstrPos(outer.Instrs[len(outer.Instrs)-1]), "early exits only after recording Unsat")
+	}
+}
+
+func ruleR9_14(w *World, r *Report) {
+	r.Rule("R9.14", "Solver.AppendClause returns without taking the constraint in (neither added, nor its literals forced, nor Unsat recorded) only where the constraint is known to hold already: the merge of repeated variables answered nil, or the weight already obtained reaches the degree", 1)
+	d := findAppendDispatch(w)
+	key := "(*solver.Solver).AppendClause drops a constraint only when it already holds"
+	if d == nil || d.forceCall == nil || d.addCall == nil || d.lower == nil {
+		r.Unk("R9.14", key, "-", "the dispatch of AppendClause (lower bound test, add call, force call) was not found")
+		return
+	}
+	fn := d.fn
+	unsat, _ := w.statusConst("Unsat")
+	var bad []string
+	nret := 0
+	// the two outcomes that justify dropping: `merge answered nil` and `lower bound >= degree`
+	var lowerCmp *ssa.BinOp
+	var merged ssa.Value
+	allInstrs(fn, func(ins ssa.Instruction) {
+		bo, ok := ins.(*ssa.BinOp)
+		if !ok {
+			return
+		}
+		if bo.X == d.lower && bo.Y == d.card && (bo.Op == token.GEQ || bo.Op == token.LSS) {
+			lowerCmp = bo
+		}
+		if (bo.Op == token.EQL || bo.Op == token.NEQ) && isNilConst(bo.Y) && typeShort(bo.X.Type()) == "*solver.Clause" {
+			merged = bo.X
+		}
+	})
+	pairs, trunc := explore(fn.Blocks[0], &pstate{phi: map[*ssa.Phi]ssa.Value{}, facts: map[string]string{}}, nil, func(ins ssa.Instruction, st *pstate) {
+		switch x := ins.(type) {
+		case *ssa.Call:
+			if x == d.forceCall || x == d.addCall {
+				st.facts["taken"] = "yes"
+			}
+		case *ssa.Store:
+			if qualField(x.Addr) == "solver.Solver.status" {
+				if v, ok := constInt(x.Val); ok && v == unsat {
+					st.facts["taken"] = "yes"
+				}
+			}
+		case *ssa.Return:
+			if x.Block() == fn.Recover {
+				return
+			}
+			nret++
+			if st.facts["taken"] == "yes" {
+				return
+			}
+			// justified by an outcome on the path ...
+			ok := false
+			if merged != nil && st.nilness(merged) == 1 {
+				ok = true
+			}
+			if lowerCmp != nil {
+				f := st.facts["cond:"+st.vkey(lowerCmp)]
+				if (lowerCmp.Op == token.GEQ && f == "=true") || (lowerCmp.Op == token.LSS && f == "=false") {
+					ok = true
+				}
+			}
+			// ... or by a dominating one
+			for _, ec := range dominatingConds(x.Block()) {
+				bo, isB := ec.Cond.(*ssa.BinOp)
+				if !isB {
+					continue
+				}
+				// merged == nil
+				if bo.Op == token.EQL && ec.True && isNilConst(bo.Y) && typeShort(bo.X.Type()) == "*solver.Clause" {
+					ok = true
+				}
+				if bo.Op == token.NEQ && !ec.True && isNilConst(bo.Y) && typeShort(bo.X.Type()) == "*solver.Clause" {
+					ok = true
+				}
+				// lower bound >= degree
+				if bo.X == d.lower && bo.Y == d.card && ((bo.Op == token.GEQ && ec.True) || (bo.Op == token.LSS && !ec.True)) {
+					ok = true
+				}
+			}
+			if !ok {
+				bad = append(bad, w.InstrPos(x))
+			}
+		}
+	})
+	_ = pairs
+	if trunc {
+		r.Unk("R9.14", key, w.Pos(fn.Pos()), "state space too large")
+		return
+	}
+	if len(bad) > 0 {
+		r.Bad("R9.14", key, w.Pos(fn.Pos()), "a return (at "+strings.Join(sortedStrings(dedupe(bad)), ", ")+") drops the constraint on a path where it is not known to hold: a constraint that no assignment satisfies (no literal left, positive degree) is ignored instead of making the solver Unsat")
+	} else {
+		r.OK("R9.14", key, w.Pos(fn.Pos()), fmt.Sprintf("%d return state(s): each after the constraint was taken in, or under `merge answered nil` / `lower bound >= degree`", nret))
 	}
 }
